@@ -39,6 +39,11 @@ Apply(e) ==
   CASE e.op = "hkdf_extract" -> IF e.n = HOut(HDof(e)) THEN V(HkdfExtract(HDof(e), e.salt, e.ikm)) ELSE P
     [] e.op = "hkdf_expand" -> IF e.n <= 255 * HOut(HDof(e)) THEN V(HkdfExpand(HDof(e), e.prk, e.info, e.n)) ELSE P
     [] e.op = "pbkdf2" -> IF e.c >= 1 THEN V(Pbkdf2(HDof(e), e.pw, e.salt, e.c, e.n)) ELSE P
+    [] e.op = "pbkdf2_blocks" ->      \* selected blocks T_i (1-based indices e.blocks) of a derived key of e.n bytes, concatenated; the last block may be partial
+         LET hl == HOut(HDof(e))
+             nb == (e.n + hl - 1) \div hl
+             blk(i) == LET t == PbkdfBlock(HDof(e), e.pw, e.salt, e.c, i) IN IF i = nb THEN SubSeq(t, 1, e.n - hl * (nb - 1)) ELSE t
+         IN V(FoldLeft(LAMBDA acc, i : acc \o blk(i), <<>>, e.blocks))
     [] e.op = "scrypt" -> IF e.n >= 1 THEN V(ScryptKdf(e.pw, e.salt, e.logn, e.r, e.p, e.n)) ELSE P
     [] e.op = "argon2" ->
          \* parameters are 16-bit limb lists; refused: p = 0, p >= 2^24, t = 0, version not in {0x10, 0x13}
